@@ -26,6 +26,9 @@ class Engine:
         if here not in sys.path:
             sys.path.insert(0, here)
         self.side = {}
+        self.reg.concretizers = {}
+        self.reg.native_searches = {}
+        self.reg.bounded_checks = {}
         for m in SIDE_MODULES:
             mod = importlib.import_module("contracts." + m)
             self.side[m] = mod
